@@ -1068,6 +1068,9 @@ pub fn run(ctx: &mut Ctx) {
                     }
                 }
                 Ok(out) => {
+                    if k == 0 {
+                        ctx.hash_line("edit", case, out);
+                    }
                     let d = match decode(out, &w, &positional) {
                         Ok(d) => d,
                         Err(e) => {
